@@ -155,12 +155,47 @@ def make_cases(ctx, first):
         quiet = variant == 3 and (i // 4) % 3 == 2          # memory store: a store-wide pass after a quiet period and a re-tag
         store = ("mem", "dir")[(i // 2) % 2] if variant != 3 else ("mem" if quiet else "dir")
         emptyrepo = variant == 3 and not quiet and rng.random() < 0.8
+        memdir = variant == 0 and (i // 4) % 4 == 1        # built on the directory store, collected by a memory store over that directory
+        if memdir:
+            store = "dir"
         conf = mkconf(store=store, emptyrepo=emptyrepo, **pol)
         repos = ["a"] if variant != 3 else ["a", "a/b", "c"]
         w = gcgen.GCWorld(rng, conf, repos)
         gcn = 0
         for repo in w.repos:
             w.build(repo)
+        if memdir:
+            repo = "a"
+            w.add(dict(kind="freeze", impl=dict(op="restart", conf=dict(conf, store="memdir")), model="(restart)"))
+            freeze_at = len(w.steps)
+            g = w.g[repo]
+            imgs = [d for d in sorted(g.man) if g.man[d]["kind"] == "image" and not g.man[d].get("subject")]
+            if imgs:
+                # content that came from the directory is deleted and collected, pushed again, deleted and collected again
+                d0 = rng.choice(imgs)
+                body, refs, mt0 = g.bytes[d0], list(g.man[d0]["refs"]), g.man[d0]["mt"]
+                for rnd in range(2):
+                    for t in [t for t, x in list(g.tags.items()) if x == d0]:
+                        w.add(manifest_delete(repo, t))
+                        g.tags.pop(t, None)
+                    w.add(manifest_delete(repo, d0))
+                    if rng.random() < 0.5:
+                        for r_ in rng.sample(refs, min(len(refs), 1)):
+                            w.add(blob_delete(repo, r_))
+                            if rng.random() < 0.5:
+                                w.add(blob_delete(repo, r_))
+                    w.age(repo, "all")
+                    gcn += 1
+                    w.collect(repo, gcn)
+                    if rnd == 0:
+                        for r_ in refs:
+                            w.blob(repo, g.bytes[r_])
+                        w.push(repo, body, mt0, refs, tag=rng.choice(["t1", "t2"]), kind="image")
+                gcn += 1
+                w.collect(repo, gcn)
+                gk = [k for k, s_ in enumerate(w.steps) if s_.get("gcid") == gcn][0]
+                w.steps[gk]["second"] = True
+                w.steps[gk]["all_old"] = True
         if variant != 3:
             for rnd in range(rng.randrange(1, 4)):
                 repo = w.repo()
@@ -275,6 +310,10 @@ def make_cases(ctx, first):
         if variant == 3:
             for s in case["steps"]:
                 s["model"] = "(skip)"
+        if memdir:
+            # the memory store over a directory is outside the model
+            for s in case["steps"][freeze_at - 1:]:
+                s["model"] = "(skip)" if s["kind"] != "freeze" else s["model"]
         cases.append(case)
     return cases
 
